@@ -212,7 +212,13 @@ func check(ctx *pbt.Ctx, c Case) error {
 	}
 	beforeBytes := ref.Encode(before, true)
 	ctx.Key(beforeBytes, []byte(fmt.Sprint(c.Quote.Std, c.Quote.Data, c.Dest, c.Mainnet, c.Index)), c.Hash, c.Script)
-	fq := ref.FeeQuoteToLibTagged(c.Quote)
+	lq, err := ref.FeeQuoteBuild(c.Quote)
+	if err != nil {
+		return fmt.Errorf("building the quote object: %v", err)
+	}
+	fq := lq.Q
+	ctx.After(lq.Unmodified)
+	ctx.Labelf("quote-build=%d", c.Quote.Build)
 	addr, opErr, err := callChange(tx, fq, c)
 	if err != nil {
 		return err
@@ -459,8 +465,24 @@ func genUnit(t *rapid.T, label string) ref.FeeUnit {
 // GenQuote draws a fee quote: standard and data mining rates independent, relay
 // rates unrelated (the library documents the mining fee as the one that counts).
 func genQuote(t *rapid.T) ref.FeeQuote {
-	return ref.FeeQuote{Std: genUnit(t, "std"), Data: genUnit(t, "data"), StdRelay: genUnit(t, "stdrelay"), DataRelay: genUnit(t, "datarelay"),
+	q := ref.FeeQuote{Std: genUnit(t, "std"), Data: genUnit(t, "data"), StdRelay: genUnit(t, "stdrelay"), DataRelay: genUnit(t, "datarelay"),
 		StdTag: genFeeTag(t, "stdtag"), DataTag: genFeeTag(t, "datatag")}
+	genQuoteBuild(t, &q)
+	return q
+}
+
+// genQuoteVia draws the exported way a quote object in use is changed.
+func genQuoteVia(t *rapid.T, label string) string {
+	return rapid.SampledFrom([]string{"addquote", "addquote", "addquote", "unmarshal", "unmarshal", "shared", "fetched", "fetched-other-quote", "unmarshal-partial", "updateminerfees", "expiry"}).Draw(t, label)
+}
+
+// genQuoteBuild draws how the quote object is filled in the first place and adapts the model
+// where the way implies it (one shared fee object: both types carry the same rates).
+func genQuoteBuild(t *rapid.T, q *ref.FeeQuote) {
+	q.Build = []int{ref.FeeBuildAddQuote, ref.FeeBuildAddQuote, ref.FeeBuildAddQuote, ref.FeeBuildShared, ref.FeeBuildFetched, ref.FeeBuildUnmarshal, ref.FeeBuildContainer, ref.FeeBuildUsedBefore}[rapid.IntRange(0, 7).Draw(t, "quote_build")]
+	if q.Build == ref.FeeBuildShared {
+		q.Data, q.DataRelay = q.Std, q.StdRelay
+	}
 }
 
 // genFeeTag draws what the informational FeeType field of a registered *bt.Fee carries: equal
@@ -713,7 +735,7 @@ func enumCases(yield func(Case)) {
 							c.Tx.Out = append(c.Tx.Out, ref.Out{Sats: 0, Script: pbt.Hex{0x00, 0x6a, 0x02, 0xab, 0xcd}})
 						}
 					}
-					c.Quote = ref.FeeQuote{Std: r, Data: rates[(ri+3)%len(rates)], StdRelay: ref.FeeUnit{Sat: 7, Bytes: 3}, DataRelay: ref.FeeUnit{Sat: 1, Bytes: 9}, StdTag: ri % 3, DataTag: (ri + 1) % 3}
+					c.Quote = ref.FeeQuote{Std: r, Data: rates[(ri+3)%len(rates)], StdRelay: ref.FeeUnit{Sat: 7, Bytes: 3}, DataRelay: ref.FeeUnit{Sat: 1, Bytes: 9}, StdTag: ri % 3, DataTag: (ri + 1) % 3, Build: []int{0, 2, 3, 4, 5}[(ri+nout)%5]}
 					switch d {
 					case "address":
 						c.Dest, c.Hash, c.Mainnet = destAddress, h(0x44), ri%2 == 0
